@@ -85,31 +85,31 @@ Proof. destruct b; auto. Qed.
 
 Lemma prog_dec_uint bs : prog (dec_uint c bs) bs 1.
 Proof.
-  unfold dec_uint. change 1%nat with (1 + 0)%nat. apply prog_bind; [apply prog_read_byte|].
+  unfold dec_uint. apply (prog_bind _ _ _ 1%nat 0%nat); [apply prog_read_byte|].
   intros b0 r L. cbv beta iota zeta.
   repeat apply prog_if.
   - apply prog_ret. lia.
-  - change 0%nat with (0 + 0)%nat. apply prog_bind; [eapply prog_weaken; [|apply prog_read_byte]; lia|].
+  - apply (prog_bind _ _ _ 0%nat 0%nat); [eapply prog_weaken; [|apply prog_read_byte]; lia|].
     intros b1 r' L'. apply prog_if; [apply prog_fail|apply prog_ret; lia].
-  - change 0%nat with (0 + 0)%nat. apply prog_bind; [eapply prog_weaken; [|apply prog_read]; lia|].
+  - apply (prog_bind _ _ _ 0%nat 0%nat); [eapply prog_weaken; [|apply prog_read]; lia|].
     intros x r' L'. cbv beta iota. apply prog_if; [apply prog_fail|apply prog_ret; lia].
   - apply prog_fail.
-  - change 0%nat with (0 + 0)%nat. apply prog_bind; [eapply prog_weaken; [|apply prog_read]; lia|].
+  - apply (prog_bind _ _ _ 0%nat 0%nat); [eapply prog_weaken; [|apply prog_read]; lia|].
     intros x r' L'. cbv beta iota zeta.
     repeat apply prog_if; try apply prog_fail; apply prog_ret; lia.
 Qed.
 
 Lemma prog_dec_big bs : prog (dec_big c bs) bs 1.
 Proof.
-  unfold dec_big. change 1%nat with (1 + 0)%nat. apply prog_bind; [apply prog_read_byte|].
+  unfold dec_big. apply (prog_bind _ _ _ 1%nat 0%nat); [apply prog_read_byte|].
   intros b0 r L. cbv beta iota zeta.
   repeat apply prog_if.
   - apply prog_ret. lia.
-  - change 0%nat with (0 + 0)%nat. apply prog_bind; [eapply prog_weaken; [|apply prog_read_byte]; lia|].
+  - apply (prog_bind _ _ _ 0%nat 0%nat); [eapply prog_weaken; [|apply prog_read_byte]; lia|].
     intros b1 r' L'. apply prog_if; [apply prog_fail|apply prog_ret; lia].
-  - change 0%nat with (0 + 0)%nat. apply prog_bind; [eapply prog_weaken; [|apply prog_read]; lia|].
+  - apply (prog_bind _ _ _ 0%nat 0%nat); [eapply prog_weaken; [|apply prog_read]; lia|].
     intros x r' L'. cbv beta iota. apply prog_if; [apply prog_fail|apply prog_ret; lia].
-  - change 0%nat with (0 + 0)%nat. apply prog_bind; [eapply prog_weaken; [|apply prog_read]; lia|].
+  - apply (prog_bind _ _ _ 0%nat 0%nat); [eapply prog_weaken; [|apply prog_read]; lia|].
     intros x r' L'. cbv beta iota zeta. apply prog_if; [apply prog_fail|apply prog_ret; lia].
 Qed.
 
@@ -136,7 +136,7 @@ Proof. rewrite skipn_length. lia. Qed.
 
 Lemma prog_dec_bytes bs : prog (dec_bytes c bs) bs 1.
 Proof.
-  unfold dec_bytes. change 1%nat with (1 + 0)%nat. apply prog_bind; [apply prog_dec_uint|].
+  unfold dec_bytes. apply (prog_bind _ _ _ 1%nat 0%nat); [apply prog_dec_uint|].
   intros len r L. cbv beta iota.
   destruct (N.ltb_spec 4294967295 len) as [BIG|SMALL]; [apply prog_fail|].
   destruct (fix_bytes c).
@@ -180,7 +180,7 @@ Proof.
   destruct (cnt =? 0); [apply prog_ret; lia|].
   apply (prog_weaken _ _ (1 + 0)%nat); [lia|]. apply prog_bind; [apply H|].
   intros v r L. cbv beta iota.
-  change 0%nat with (0 + 0)%nat. apply prog_bind; [apply IH; lia|].
+  apply (prog_bind _ _ _ 0%nat 0%nat); [apply IH; lia|].
   intros vs r' L'. cbv beta iota. apply prog_ret. lia.
 Qed.
 End Total.
